@@ -1233,7 +1233,9 @@ void KMeans(matrix* m,
   UIVectorResize(cluster_labels, m->row);
   
   it = 0;
-  while(shouldStop(centroids, oldcentroids, it, 100) == 0)
+  /* Always run the first round: oldcentroids starts at zero, so start centroids within
+   * EPSILON of the origin would otherwise look converged before anything was labelled. */
+  while(it == 0 || shouldStop(centroids, oldcentroids, it, 100) == 0)
   {
     #ifdef DEBUG
     clock_t t = clock();
